@@ -60,7 +60,7 @@ def case_term(row):
                 t, gN(o["pid"]), gN(offn(o["offid"])), gbool(ok),
                 gN(max(o.get("rsid", 0), 0)), gN(max(o.get("rpid", 0), 0)), nl(o.get("rrooms")),
                 nl([offn(s) for s in o["missed"] or []]), log, pids))
-    return "(%s, %s, %s)" % (gZ(row["w"]), nl(row.get("witrooms")), glist(ops))
+    return "mkS %s %s %s" % (gZ(row["w"]), nl(row.get("witrooms")), glist(ops))
 
 
 def nontrivial_key(row):
@@ -189,14 +189,14 @@ def live_term(c):
     h = []
     for e in c["emits"]:
         if e["phase"] == 0:
-            h.append("(0%%Z, OBroadcast KEvent %s %s)" % (gN(e["tag"]), opts(e)))
+            h.append("ev 0%%Z (OBroadcast KEvent %s %s)" % (gN(e["tag"]), opts(e)))
     if c.get("persisted"):
-        h.append("(0%%Z, OPersist (mkSess %s 1%%N %s))" % (gN(own), nl(sorted(c.get("joined") or []) + [own])))
-    h += ["(0%Z, OClean)"] * c.get("clean0", 0)
+        h.append("ev 0%%Z (OPersist (mkSess %s 1%%N %s))" % (gN(own), nl(sorted(c.get("joined") or []) + [own])))
+    h += ["ev 0%Z OClean"] * c.get("clean0", 0)
     for e in c["emits"]:
         if e["phase"] == 1:
-            h.append("(0%%Z, OBroadcast KEvent %s %s)" % (gN(e["tag"]), opts(e)))
-            h += ["(0%Z, OClean)"] * e.get("clean", 0)
+            h.append("ev 0%%Z (OBroadcast KEvent %s %s)" % (gN(e["tag"]), opts(e)))
+            h += ["ev 0%Z OClean"] * e.get("clean", 0)
     same_sid = c.get("Sid2") == c.get("Sid1")
     sid = own if same_sid else 200
     pid2 = 1 if c.get("Pid2") == c.get("Pid1") else 2
@@ -209,7 +209,7 @@ def live_term(c):
         else:
             rooms.append(999)
     off = c["offtag"] if c.get("offtag") else 900001
-    return "(%s, %s, (%s, 1%%N, %s), (%s, %s, %s, %s, %s, %s))" % (
+    return "mkL %s %s %s 1%%N %s %s %s %s %s %s %s" % (
         gZ(c["window_ms"]), glist(h), gZ(c["elapsed_ms"]), gN(off),
         gbool(c.get("srv_recovered", False)), gN(sid), gN(pid2), nl(rooms), nl(codes), gbool(wf))
 
